@@ -90,13 +90,22 @@ enum Carrier {
     Recipient,
 }
 
+/// AAD / payload bytes: mostly short, sometimes on a CBOR length-class boundary.
+fn gen_data(g: &mut Gen) -> Vec<u8> {
+    if g.ratio(1, 12) {
+        gen_class_bytes(g)
+    } else {
+        g.small_bytes()
+    }
+}
+
 fn gen_op(g: &mut Gen, c: Carrier) -> Op {
     let fail = |g: &mut Gen| if g.ratio(1, 12) { Some(g.byte()) } else { None };
     let k = g.weighted(&[3, 2, 3, 2, 2, 5, 3]);
     match k {
         0 => Op::Protected(gen_small_header(g)),
         1 => Op::Unprotected(gen_small_header(g)),
-        2 => Op::Content(g.small_bytes()),
+        2 => Op::Content(gen_data(g)),
         3 => match c {
             Carrier::Sign1 | Carrier::Mac | Carrier::Mac0 => Op::Auth(g.small_bytes()),
             _ => Op::Unprotected(gen_small_header(g)),
@@ -109,21 +118,21 @@ fn gen_op(g: &mut Gen, c: Carrier) -> Op {
         5 => match c {
             Carrier::Sign => {
                 let fallible = g.bool();
-                Op::AddCreated { sig: gen_sig(g), aad: g.small_bytes(), out: g.small_bytes(), fallible, fail: if fallible { fail(g) } else { None } }
+                Op::AddCreated { sig: gen_sig(g), aad: gen_data(g), out: g.small_bytes(), fallible, fail: if fallible { fail(g) } else { None } }
             }
             _ => {
                 let fallible = g.bool();
-                Op::Create { aad: g.small_bytes(), plaintext: g.small_bytes(), out: g.small_bytes(), fallible, fail: if fallible { fail(g) } else { None }, ctx: if g.ratio(1, 10) { g.below(2) } else { 2 + g.below(3) } }
+                Op::Create { aad: gen_data(g), plaintext: g.small_bytes(), out: g.small_bytes(), fallible, fail: if fallible { fail(g) } else { None }, ctx: if g.ratio(1, 10) { g.below(2) } else { 2 + g.below(3) } }
             }
         },
         _ => match c {
             Carrier::Sign1 => {
                 let fallible = g.bool();
-                Op::CreateDetached { payload: g.small_bytes(), aad: g.small_bytes(), out: g.small_bytes(), fallible, fail: if fallible { fail(g) } else { None } }
+                Op::CreateDetached { payload: gen_data(g), aad: gen_data(g), out: g.small_bytes(), fallible, fail: if fallible { fail(g) } else { None } }
             }
             Carrier::Sign => {
                 let fallible = g.bool();
-                Op::AddDetached { sig: gen_sig(g), payload: g.small_bytes(), aad: g.small_bytes(), out: g.small_bytes(), fallible, fail: if fallible { fail(g) } else { None } }
+                Op::AddDetached { sig: gen_sig(g), payload: gen_data(g), aad: gen_data(g), out: g.small_bytes(), fallible, fail: if fallible { fail(g) } else { None } }
             }
             _ => Op::Content(g.small_bytes()),
         },
